@@ -1,3 +1,4 @@
+import BoolFn.Proofs.BddOps
 import BoolFn.Proofs.TableOps
 import BoolFn.Bdd
 /-! # C04 — Equivalence and implication tests decide semantic equality and entailment
@@ -92,6 +93,13 @@ theorem table_implied_iff (self other : Table α) (hs : self.WF) (ho : other.WF)
 /-! `semantic_eq` is the same model function as `is_equivalent` for expressions and tables (the Rust
     `is_equivalent` forwards to `semantic_eq`), and `semantic_ne` is its negation; the check compares all
     four answers of the implementation. -/
+
+/-! ### decision diagrams (repaired `is_equivalent`) -/
+theorem bdd_equiv_iff (a b : Bdd α) (ha : a.WF) (hb : b.WF) :
+    ∃ r, Bdd.isEquivalent a b = .ok r ∧ (r = true ↔ ∀ ρ, a.den ρ = b.den ρ) := Bdd.isEquivalent_iff a b ha hb
+theorem bdd_implied_iff (self other : Bdd α) (hs : self.WF) (ho : other.WF) :
+    ∃ r, Bdd.isImpliedBy self other = .ok r ∧ (r = true ↔ ∀ ρ, other.den ρ = true → self.den ρ = true) :=
+  Bdd.isImpliedBy_iff self other hs ho
 
 /-- independence of declared-only variables and of the construction history: two expressions with the
     same denotation as `a` resp. `b` get the same answer -/
